@@ -10,6 +10,7 @@ import (
 
 var _ = vp.Reg("Listing", H_Listing)
 var _ = vp.Reg("SameVerdict", H_SameVerdict)
+var _ = vp.Reg("ArcListing", H_ArcListing)
 
 // listing is what a recording printer saw.
 type listing struct {
@@ -17,6 +18,7 @@ type listing struct {
 	maxLen int       // longest byte slice handed to the printer
 	lines  int       // instruction lines (opcode or "implicit") after Reset was delivered
 	floats []float32 // float32 operands printed on operand lines
+	u32s   []uint32  // uint32 operands printed on operand lines (arc flags: value, largeArc bit, sweep bit)
 	colors []ivg.Color
 	dest   *rec.Dest
 }
@@ -35,6 +37,8 @@ func (l *listing) print(b []byte, format string, args ...interface{}) {
 			switch v := a.(type) {
 			case float32:
 				l.floats = append(l.floats, v)
+			case uint32:
+				l.u32s = append(l.u32s, v)
 			case ivg.Color:
 				l.colors = append(l.colors, v)
 			}
@@ -52,6 +56,10 @@ func H_Listing() {
 	vp.Assume(int(tail[0]>>4) == vp.Choice("op", 16))
 	src := append([]byte{0x89, 0x49, 0x56, 0x47, 0x00}, tail...)
 	vp.ReadOnly(src)
+	checkListing(src)
+}
+
+func checkListing(src []byte) {
 	var d rec.Dest
 	l := listing{dest: &d}
 	m := ivg.DefaultMetadata
@@ -78,28 +86,39 @@ func H_Listing() {
 	// operand values: floats of non-arc operations and colours, in order
 	var floats []float32
 	var colors []ivg.Color
-	arcs := false
+	var flags []bool
 	for i := range d.Log {
 		c := &d.Log[i]
 		if c.Op == rec.OpAbsArcTo || c.Op == rec.OpRelArcTo {
-			arcs = true
-		}
-		for j := 0; j < c.N; j++ {
-			floats = append(floats, c.A[j])
+			// rx, ry, the angle (printed as a fraction and in degrees), x, y
+			floats = append(floats, c.A[0], c.A[1], c.A[2], c.A[2]*360, c.A[3], c.A[4])
+			flags = append(flags, c.LargeArc, c.Sweep)
+		} else {
+			for j := 0; j < c.N; j++ {
+				floats = append(floats, c.A[j])
+			}
 		}
 		if c.Op == rec.OpSetCReg {
 			colors = append(colors, c.Color)
 		}
 	}
-	if !arcs {
-		vp.Assert(len(floats) == len(l.floats), "every delivered number is printed once")
-		if len(floats) == len(l.floats) {
-			same := true
-			for i := range floats {
-				same = vp.And(same, vp.SameF32(floats[i], l.floats[i]))
-			}
-			vp.Assert(same, "printed numbers are the delivered numbers")
+	vp.Assert(len(floats) == len(l.floats), "every delivered number is printed once")
+	if len(floats) == len(l.floats) {
+		same := true
+		for i := range floats {
+			same = vp.And(same, vp.SameF32(floats[i], l.floats[i]))
 		}
+		vp.Assert(same, "printed numbers are the delivered numbers")
+	}
+	// arc flags: each arc prints (value, largeArc, sweep); the two bits are the delivered flags
+	vp.Assert(len(l.u32s)*2 == len(flags)*3, "every arc prints its flags once")
+	if len(l.u32s)*2 == len(flags)*3 {
+		same := true
+		for i := 0; i*2 < len(flags); i++ {
+			la, sw := uint32(0), uint32(0)
+			same = vp.All(same, l.u32s[3*i+1] == vp.IteU32(flags[2*i], 1, la), l.u32s[3*i+2] == vp.IteU32(flags[2*i+1], 1, sw))
+		}
+		vp.Assert(same, "printed arc flags are the delivered arc flags")
 	}
 	vp.Assert(len(colors) == len(l.colors), "every delivered colour is printed once")
 	if len(colors) == len(l.colors) {
@@ -109,6 +128,30 @@ func H_Listing() {
 		}
 		vp.Assert(same, "printed colours are the delivered colours")
 	}
+}
+
+// H_ArcListing: an arc instruction (too long for the generic window) with
+// arbitrary 1-byte operands and a flags natural of any width, inside a path.
+func H_ArcListing() {
+	width := 1 << vp.Choice("width", 3)
+	fl := vp.Bytes("flags", width)
+	want := byte(0)
+	if width == 2 {
+		want = 1
+	} else if width == 4 {
+		want = 3
+	}
+	vp.Assume(fl[0]&3 == want || (width == 1 && fl[0]&1 == 0))
+	ops := vp.Bytes("n", 5)
+	for i := range ops {
+		vp.Assume(ops[i]&1 == 0)
+	}
+	rel := byte(vp.Choice("rel", 2)) << 4
+	src := []byte{0x89, 0x49, 0x56, 0x47, 0x00, 0xc0, 0x80, 0x80, 0xc0 + rel, ops[0], ops[1], ops[2]}
+	src = append(src, fl...)
+	src = append(src, ops[3], ops[4], 0xe1)
+	vp.ReadOnly(src)
+	checkListing(src)
 }
 
 // H_SameVerdict: Disassemble succeeds exactly when Decode does and fails with
